@@ -60,7 +60,8 @@ def coq_make(targets, timeout=3000):
     ok, out = coq_makefile()
     if not ok:
         return False, out
-    rc, out = sh(["make", "-j%d" % NCPU] + list(targets), cwd=COQ, timeout=timeout)
+    # address-space cap: a runaway vm_compute must fail, not take the machine down
+    rc, out = sh("ulimit -v 24000000; exec make -j%d %s" % (NCPU, " ".join(targets)), cwd=COQ, timeout=timeout)
     return rc == 0, out
 
 
@@ -76,7 +77,7 @@ def coq_deps(vfile):
             src = open(os.path.join(COQ, f)).read()
         except OSError:
             continue
-        for m in re.finditer(r"From BP7 Require (?:Import|Export) ([^.]*(?:\.[A-Za-z_][A-Za-z0-9_]*)*)\.", src):
+        for m in re.finditer(r"From BP7 Require (?:Import|Export)\s+((?:[A-Za-z_][A-Za-z0-9_]*(?:\.[A-Za-z_][A-Za-z0-9_]*)*\s*)+)\.", src):
             for mod in m.group(1).split():
                 p = "theories/" + mod.replace(".", "/") + ".v"
                 if os.path.exists(os.path.join(COQ, p)):
